@@ -13,7 +13,14 @@ pub fn eliminate_unused_in_block(
         eliminate_unused_in_stmt(stmt, used_vars, stats);
     }
 
+    // the last statement of a block decides the block's value (implicit return): removing a
+    // trailing `let` would turn the statement before it into the result
+    let mut remaining = stmts.len();
     stmts.retain(|stmt| {
+        remaining -= 1;
+        if remaining == 0 {
+            return true;
+        }
         if let TypedStmtKind::Let {
             name,
             initializer,
